@@ -13,6 +13,7 @@ use std::{any::Any, collections::VecDeque, fmt::Display, time::SystemTime};
 
 use ahash::HashSet;
 use futures::FutureExt;
+use itertools::Itertools;
 
 use crate::{
     Candidates, Dependencies, DependencyProvider, HintDependenciesAvailable, Interner, Mapping,
@@ -456,6 +457,9 @@ impl Interner for SnapshotProvider<'_> {
             .expect("missing constraint")
             .iter()
             .copied()
+            // The members are stored in a hash set whose iteration order differs between
+            // processes; the solver requires a deterministic order.
+            .sorted()
     }
 }
 
